@@ -8,13 +8,15 @@
 
    FULL STATEMENT (the property, for the whole instruction set and the full Michelson typing):
      forall fuel env code st R inputs, typecheck code st = Some R -> stack_typed inputs st ->
-       ref_eval fuel env code (map erase inputs) <> OutOfFuel ->
-       erase_outcome (py_eval fuel env code (mkst [] inputs)) = ref_eval fuel env code (map erase inputs).
+       ref_eval env fuel code (map erase inputs) <> OutOfFuel ->
+       erase_outcome (py_eval env fuel code (mkst [] inputs)) = ref_eval env fuel code (map erase inputs).
    PROVED below ([_partial]): the same statement for
      - the fragment of Michelson/Instr.v ([in_fragment code]: stack manipulation DROP/DUP/SWAP/DIG/DUG/PUSH/DIP n,
        IF, IF_NONE, IF_LEFT, IF_CONS, LOOP, LOOP_LEFT, ITER and MAP on lists, PAIR/UNPAIR/CAR/CDR, LEFT/RIGHT, SOME/NONE,
        UNIT, NIL/CONS, SIZE, ADD/SUB/MUL/NEG/ABS/ISNAT/INT/EDIV on int/nat, COMPARE on every comparable type of the
-       fragment, EQ..GE, AND/OR/XOR/NOT on bool, CONCAT on strings, FAILWITH; no environment yet),
+       fragment, EQ..GE, AND/OR/XOR/NOT on bool, CONCAT on strings, FAILWITH; stage 2: bytes, SLICE, bitwise logic and shifts, PAIR n/UNPAIR n/GET k/UPDATE k, mutez and timestamp
+       arithmetic, SUB_MUTEZ, the environment instructions AMOUNT BALANCE SENDER SOURCE SELF_ADDRESS NOW LEVEL CHAIN_ID
+       for every environment with amounts in the mutez range),
      - programs accepted by [typecheck_nr] (Michelson typing + every MAP body returns the element type it got),
      and it is stronger than asked: it holds for every fuel (OutOfFuel on one side iff on the other) and for every
      hidden prefix. Without the MAP restriction the statement is FALSE for pytezos ([C01_simulation_refuted],
@@ -30,25 +32,25 @@ Import ListNotations.
    also what ref_eval uses, see C01_ref_uses_shuffle) and leave the hidden prefix alone; when the reference rule does
    not apply (stack too short) pytezos raises — provided nothing is hidden (with a hidden prefix stack.py's
    `protect` compares against the whole list and may let DUG/DUP overreach: ill-typed programs only). *)
-Theorem C01_stack_refinement_shuffle : forall fuel i st,
+Theorem C01_stack_refinement_shuffle : forall e fuel i st,
   prot st <= length (items st) -> is_shuffle i = true -> (shuffle i (view st) <> None \/ prot st = 0) ->
-  py_eval (S fuel) i st =
+  py_eval e (S fuel) i st =
     match shuffle i (view st) with Some v' => PDone (mkst (hidden st) v') | None => PError end.
 Proof. exact shuffle_refines_st. Qed.
 Print Assumptions C01_stack_refinement_shuffle.
 
-Theorem C01_ref_uses_shuffle : forall i s, is_shuffle i = true -> forall fuel,
-  ref_eval (S fuel) i s = match shuffle i s with Some s' => Done s' | None => Stuck end.
+Theorem C01_ref_uses_shuffle : forall e i s, is_shuffle i = true -> forall fuel,
+  ref_eval e (S fuel) i s = match shuffle i s with Some s' => Done s' | None => Stuck end.
 Proof. exact ref_shuffle. Qed.
 Print Assumptions C01_ref_uses_shuffle.
 
 (* (a) DIP n: protect(n) ... restore(n) is the recursive DIP of the reference whenever the body leaves the n extra
    hidden items alone (which C01_frame_partial guarantees for every well-typed body) *)
-Theorem C01_stack_refinement_DIP : forall fuel n c st out,
+Theorem C01_stack_refinement_DIP : forall e fuel n c st out,
   prot st <= length (items st) -> n <= length (view st) ->
-  py_eval fuel c (mkst (hidden st ++ firstn n (view st)) (skipn n (view st)))
+  py_eval e fuel c (mkst (hidden st ++ firstn n (view st)) (skipn n (view st)))
     = PDone (mkst (hidden st ++ firstn n (view st)) out) ->
-  py_eval (S fuel) (I_DIP n c) st = PDone (mkst (hidden st) (firstn n (view st) ++ out)).
+  py_eval e (S fuel) (I_DIP n c) st = PDone (mkst (hidden st) (firstn n (view st) ++ out)).
 Proof. exact dip_refines. Qed.
 Print Assumptions C01_stack_refinement_DIP.
 
@@ -66,24 +68,24 @@ Qed.
 Print Assumptions C01_stack_primitives.
 
 (* (b) simulation, for the fragment *)
-Theorem C01_simulation_partial : forall fuel code st R hid inputs,
+Theorem C01_simulation_partial : forall e, env_okb e = true -> forall fuel code st R hid inputs,
   in_fragment code -> typecheck_nr code st = Some R -> stack_typed inputs st ->
-  erase_outcome (py_eval fuel code (mkst hid inputs)) = ref_eval fuel code (map erase inputs).
+  erase_outcome (py_eval e fuel code (mkst hid inputs)) = ref_eval e fuel code (map erase inputs).
 Proof. exact c01_simulation. Qed.
 Print Assumptions C01_simulation_partial.
 
 (* ... and the run leaves the hidden prefix and the counter as they were, with a result of the static type *)
-Theorem C01_frame_partial : forall fuel code st R hid inputs stf,
+Theorem C01_frame_partial : forall e, env_okb e = true -> forall fuel code st R hid inputs stf,
   in_fragment code -> typecheck_nr code st = Some R -> stack_typed inputs st ->
-  py_eval fuel code (mkst hid inputs) = PDone stf ->
+  py_eval e fuel code (mkst hid inputs) = PDone stf ->
   hidden stf = hid /\ prot stf = length hid /\ exists st', R = Typed st' /\ stack_typed (view stf) st'.
 Proof. exact c01_frame. Qed.
 Print Assumptions C01_frame_partial.
 
 (* the reference semantics never gets stuck on these programs (sanity of the transcription) *)
-Theorem C01_ref_progress_partial : forall fuel code st R inputs,
+Theorem C01_ref_progress_partial : forall e, env_okb e = true -> forall fuel code st R inputs,
   in_fragment code -> typecheck_nr code st = Some R -> stack_typed inputs st ->
-  ref_eval fuel code (map erase inputs) <> Stuck.
+  ref_eval e fuel code (map erase inputs) <> Stuck.
 Proof. exact c01_ref_progress. Qed.
 Print Assumptions C01_ref_progress_partial.
 
@@ -93,10 +95,10 @@ Proof. exact tc_nr_sub. Qed.
 Print Assumptions C01_nr_is_well_typed.
 
 (* per-instruction agreement (b) of the design: every instruction without sub-programs *)
-Theorem C01_instr_agree : forall i k fn s s1 vis,
-  py_simple i = Some (k, fn) -> tc_simple i s = Some s1 -> styped vis s ->
+Theorem C01_instr_agree : forall e, env_okb e = true -> forall i k fn s s1 vis,
+  py_simple e i = Some (k, fn) -> tc_simple i s = Some s1 -> styped vis s ->
   exists args rest, vis = args ++ rest /\ length args = k /\
-    match ref_simple i (map erase vis) with
+    match ref_simple e i (map erase vis) with
     | Done r => exists outs, fn args = POk outs /\ map erase (outs ++ rest) = r /\ styped (outs ++ rest) s1
     | RtError => fn args = PErr
     | _ => False
@@ -118,26 +120,17 @@ Print Assumptions C01_ediv_spec.
 
 (* Without the restriction on MAP the simulation is false for pytezos: MAP over an empty list keeps the class of
    the source list and a following CONS fails although the reference succeeds (known finding empty-map-retype). *)
-Theorem C01_simulation_refuted : exists fuel code st R inputs,
-  in_fragment code /\ typecheck code st = Some R /\ stack_typed inputs st /\
-  ref_eval fuel code (map erase inputs) <> OutOfFuel /\
-  erase_outcome (py_eval fuel code (mkst [] inputs)) <> ref_eval fuel code (map erase inputs).
-Proof.
-  exists 10, (I_SEQ (I_MAP (I_SEQ I_INT I_NOOP)) (I_SEQ (I_PUSH TInt (DInt 1)) (I_SEQ I_CONS I_NOOP))),
-         [TList TNat], (Typed [TList TInt]), [PList TNat []].
-  repeat split; try (vm_compute; discriminate).
-  constructor; [reflexivity | constructor].
-Qed.
+Theorem C01_simulation_refuted : exists e fuel code st R inputs,
+  env_okb e = true /\ in_fragment code /\ typecheck code st = Some R /\ stack_typed inputs st /\
+  ref_eval e fuel code (map erase inputs) <> OutOfFuel /\
+  erase_outcome (py_eval e fuel code (mkst [] inputs)) <> ref_eval e fuel code (map erase inputs).
+Proof. exact c01_refuted. Qed.
 Print Assumptions C01_simulation_refuted.
 
-(* non-vacuity: a program with DIP/DIG/DUP, a counted LOOP, ITER and MAP is accepted by typecheck_nr, and runs *)
+(* non-vacuity: a program with DIP/DIG/DUP, ITER, MAP and environment instructions is accepted by typecheck_nr, and runs
+   (each fact is proved by vm_compute in Proofs/PySem_proofs.v) *)
 Example C01_example :
-  let code :=
-    I_SEQ (I_PUSH (TList TNat) (DList [DInt 1; DInt 2; DInt 3]))
-    (I_SEQ (I_MAP (I_SEQ (I_DUP 1) (I_SEQ I_MUL I_NOOP)))
-    (I_SEQ (I_PUSH TNat (DInt 0)) (I_SEQ I_SWAP (I_SEQ (I_ITER (I_SEQ I_ADD I_NOOP))
-    (I_SEQ (I_DIP 1 (I_SEQ (I_DUP 2) (I_SEQ (I_DIG 1) (I_SEQ I_PAIR I_NOOP)))) I_NOOP))))) in
-  typecheck_nr code [TInt; TString] = Some (Typed [TNat; TPair TInt TString; TString]) /\
-  ref_eval 50 code [VInt 7; VStr [x61]] = Done [VInt 14; VPair (VInt 7) (VStr [x61]); VStr [x61]] /\
-  obs_of (py_eval 50 code (mkst [] [PInt 7; PStr [x61]])) = ODone [PNat 14; PPair (PInt 7) (PStr [x61]); PStr [x61]].
-Proof. vm_compute. repeat split. Qed.
+  typecheck_nr ex_code1 [TInt; TString] = Some (Typed [TOption TMutez; TNat; TPair TInt TString; TString]) /\
+  ref_eval ex_env 50 ex_code1 [VInt 7; VStr []] = Done [VSome (VMutez 4); VInt 14; VPair (VInt 7) (VStr []); VStr []] /\
+  obs_of (py_eval ex_env 50 ex_code1 (mkst [] [PInt 7; PStr []])) = ODone [PSome (PMutez 4); PNat 14; PPair (PInt 7) (PStr []); PStr []].
+Proof. exact (conj ex1_tc (conj ex1_ref ex1_py)). Qed.
